@@ -440,6 +440,12 @@ bool decode_little_endian_program(FILE *f, const char *filename,
 	      perror(filename);
 	      return false;
 	    }
+	  else
+	    {
+	      /* The line is cut short by end-of-file; the rest of buf
+		 holds stale data (from a previous line or file). */
+	      return premature_eof(f);
+	    }
 	}
       if ((len > 0) && buf[len-1] != 0x0D)
 	{
